@@ -436,6 +436,27 @@ def attribute(module, failing, known, label, setdev, parallel=4):
     return out, results
 
 
+def attribute_regression(module, failing, known, others, label, setdev, parallel=4):
+    """Failing traces that the model with the open deviations does not reproduce: does it reproduce them when
+    deviations that are NOT open (fixed / never confirmed) are switched on as well?  {tid: tuple(extra devs)}"""
+    subsets = [sub for size in (1, 2) for sub in itertools.combinations(others, size)]
+    batch, back = [], {}
+    for tid, tr in failing.items():
+        for sub in subsets:
+            cid = len(batch) + 1
+            batch.append(setdev(dict(tr, id=cid), list(known) + list(sub)))
+            back[cid] = (tid, sub)
+    if not batch:
+        return {}, []
+    v, results = validate(module, batch, label, parallel=parallel)
+    out = {}
+    for cid in sorted(v):
+        tid, sub = back[cid]
+        if v[cid][2] == 1 and tid not in out:
+            out[tid] = sub
+    return out, results
+
+
 def _set_map_dev(tr, dev):
     tr["cfg"] = dict(tr["cfg"], dev=dev)
     return tr
@@ -446,9 +467,19 @@ def _set_txn_dev(tr, dev):
     return tr
 
 
-def judge(chk, module, traces, meta, verdicts, known, label, setdev, describe, parallel=4):
+def judge(chk, module, traces, meta, verdicts, known, label, setdev, describe, parallel=4, all_devs=()):
     bad = {tid: v for tid, v in verdicts.items() if v[0] != "ACCEPT"}
     explained = {}
+    # contract failures the open deviations do not explain: name them after a non-open deviation of the model if
+    # that reproduces them exactly (a fixed defect that is back), else after the clause
+    unexpl = {tid: traces[tid - 1] for tid, v in bad.items() if v[0].startswith("PROP:") and v[2] == 0}
+    others = [d for d in all_devs if d not in known]
+    regress = {}
+    if unexpl and others:
+        some = dict(list(unexpl.items())[:40])
+        regress, res = attribute_regression(module, some, known, others, label + "_regr", setdev, parallel)
+        for r in res:
+            chk.add_tlc(f"{module} regression attribution batch", r, count=False)
     cand = {tid: traces[tid - 1] for tid, v in bad.items() if v[0].startswith("PROP:") and v[2] == 1}
     if cand and known:
         explained, res = attribute(module, cand, known, label + "_attr", setdev, parallel)
@@ -470,6 +501,10 @@ def judge(chk, module, traces, meta, verdicts, known, label, setdev, describe, p
             for d in explained[tid]:
                 chk.violation(d, f"{v[0]} at op {v[1]} ({describe(tr)}); reproduced exactly by the model with "
                                  f"deviation(s) {list(explained[tid])}", replay)
+        elif tid in regress:
+            for d in regress[tid]:
+                chk.violation(d, f"{v[0]} at op {v[1]} ({describe(tr)}); reproduced exactly by the model with the "
+                                 f"non-open deviation(s) {list(regress[tid])} on top of the open ones {known}", replay)
         else:
             chk.violation(f"{v[0][5:]}:{describe(tr)}",
                           f"{v[0]} at op {v[1]} of an execution of the real code ({describe(tr)}); not explained by "
@@ -559,7 +594,7 @@ def run(tier, seed, replay=None):
         c = tr["cfg"]
         return c["engine"] + (":" + c["strat"] if c["engine"] == "lsm" else "")
     bad, explained = judge(chk, "StorageTrace.tla", traces, meta, verdicts, known_map, lab("trace"), _set_map_dev,
-                           describe_map, parallel=par)
+                           describe_map, parallel=par, all_devs=ALL_MAP_DEVS)
     chk.extra["map_traces"] = len(traces)
     chk.extra["map_contract_failures_observed"] = sum(1 for v in bad.values() if v[0].startswith("PROP:"))
     chk.extra["map_failures_by_deviation"] = {d: sum(1 for s in explained.values() if d in s) for d in known_map}
@@ -601,7 +636,7 @@ def run(tier, seed, replay=None):
     for r in tresults:
         chk.add_tlc("TxnTrace batch (contract on observed events + model re-run)", r)
     tbad, texpl = judge(chk, "TxnTrace.tla", ttraces, tmeta, tverdicts, known_txn, lab("ttrace"), _set_txn_dev,
-                        lambda tr: "txn:" + tr["level"])
+                        lambda tr: "txn:" + tr["level"], all_devs=sorted(TXN_SENS))
     chk.extra["txn_traces"] = len(ttraces)
     chk.extra["txn_contract_failures_observed"] = sum(1 for v in tbad.values() if v[0].startswith("PROP:"))
 
